@@ -19,7 +19,7 @@ NAMES = ['A', 'B', 'C', 'D', 'D0', 'Tz', 'D3', 'G', 'Pr', 'P', 'Pk', 'Pw', 'Mv',
          'R1', 'R2', 'R3', 'Hw', 'Pl', 'R1i', 'Hwi', 'Pli', 'R1v', 'Hwv', 'Plv', 'AI', 'DI', 'D0I', 'D3I', 'TzI', 'GT',
          'CT', 'PrT', 'PT', 'PkT', 'MvT', 'RsT', 'RvT', 'BdT', 'R1T', 'R3T', 'R1iT', 'PlT', 'I2v', 'Iqu', 'Im',
          'H2', 'Hh', 'Hq', 'Hm', 'AB', 'Mc', 'McT', 'Mn',
-         'Dl', 'DlI', 'Prl', 'PrlT', 'BDl', 'BRl', 'BCl', 'Il', 'Hl']
+         'Dl', 'DlI', 'Prl', 'PrlT', 'BDl', 'BRl', 'BCl', 'Il', 'Hl', 'Mp', 'Mq', 'Ma', 'Mb']
 SOLO = ['Dq', 'DqI', 'Dh']       # extreme parameter values (tiny / huge diagonal entries): used alone only
 POOL_QUICK = ['A', 'D', 'AI', 'DI', 'I2v', 'H2', 'G', 'GT', 'Pr', 'R1', 'R1T', 'Hw', 'Pl', 'Tz', 'D0']
 POOL_THOROUGH = POOL_QUICK + ['B', 'C', 'PrT', 'P', 'R2', 'Mv', 'Rs', 'D3', 'Hh']
@@ -393,6 +393,10 @@ def run(prop: str, tier: str, seed: int) -> int:
         picked, strata = fx.stratified_sample(
             sel, lambda c: (c['names'][0], c['names'][2], c['names'][3], c.get('term', {}).get('k')), 40, seed)
         atoms = [c for c in sel if c['names'][0] == '1']          # every atom alone, every mode
+        # every product of two operators of rule-related kinds (the pairs a binary rule may look at)
+        ruley = {'mvax', 'reshape', 'ravel', 'RT', 'T', 'index', 'pack', 'rot', 'rotT', 'brow', 'bdiag', 'bcol', 'inv', 'dinv'}
+        atoms += [c for c in sel if c['names'][0] == '2' and c['names'][3] == 'plain' and c['term']['k'] == 'comp'
+                  and all(ch['k'] in ruley for ch in c['term']['ch'])]
         ids = {c['id'] for c in atoms}
         rest = [c for c in picked if c['id'] not in ids]
         if len(atoms) + len(rest) > cap:
